@@ -48,6 +48,42 @@ func (local) viaMethod(i int) { step(i + 1) }
 //go:noinline
 func viaGeneric[K comparable, V any](k K, v V, i int) { step(i + 1) }
 
+// recBoost > 0: the recursive links recurse that deep (long runs of frames of
+// one package: short encoded name, long expanded name).
+var recBoost int
+
+func recDepth(b byte) int {
+	if recBoost > 0 {
+		return recBoost
+	}
+	return int(b/22) % 5
+}
+
+// ---------------------------------------------------------------- watchdog
+
+// pending describes the input of the real call in progress; if that call does
+// not return within the limit the case is emitted as "hang" with this input
+// and the harness stops (the stuck goroutine cannot be killed).
+var pending []string
+
+const hangLimit = 20 * time.Second
+
+func guarded(f func()) {
+	done := make(chan struct{})
+	go func() {
+		defer close(done)
+		f()
+	}()
+	select {
+	case <-done:
+	case <-time.After(hangLimit):
+		out.Note("hang")
+		out.Case(true, append([]string{"hang"}, pending...)...)
+		out.Close()
+		os.Exit(0)
+	}
+}
+
 // step interprets prog[i] as the next link of the chain.
 func step(i int) {
 	if i >= len(prog) {
@@ -68,7 +104,7 @@ func step(i int) {
 	case 5:
 		pa.Inl(i, step)
 	case 6:
-		pa.Rec(int(prog[i]/22)%5, i, step)
+		pa.Rec(recDepth(prog[i]), i, step)
 	case 7:
 		pa.Deep{}.Name(i, step)
 	case 8:
@@ -84,7 +120,7 @@ func step(i int) {
 	case 13:
 		pb.Inl(i, step)
 	case 14:
-		pb.Rec(int(prog[i]/22)%5, i, step)
+		pb.Rec(recDepth(prog[i]), i, step)
 	case 15:
 		pb.Deep{}.Name(i, step)
 	case 16:
@@ -213,6 +249,10 @@ func genPrefix() string {
 }
 
 func caseEnc() {
+	if rnd.Chance(6) { // long runs of one package: expanded name much longer than the encoded one
+		recBoost = 20 + rnd.Intn(90)
+		defer func() { recBoost = 0 }()
+	}
 	pcs := capturePCs(genProg())
 	if len(pcs) > 2 && rnd.Chance(50) {
 		pcs = pcs[:len(pcs)-2] // drop runtime.main / goexit sometimes
@@ -267,6 +307,7 @@ func caseEnc() {
 	}
 	prefix := genPrefix()
 	fs := framesOf(pcs)
+	pending = append([]string{"EncodeStack", HS(prefix)}, frameFields(fs)...)
 	name := counter.EncodeStack(pcs, prefix)
 	dec := counter.DecodeStack(name)
 	if len(name) >= 4096 {
@@ -342,6 +383,7 @@ func caseDec() {
 				status = "panic"
 			}
 		}()
+		pending = []string{"DecodeStack", HS(s)}
 		dec = counter.DecodeStack(s)
 		is = counter.IsStackCounter(s)
 	}()
@@ -416,6 +458,42 @@ func caseCacheDepths() {
 	runCacheMode(name, d2, progs, 6, 0, 0)
 }
 
+// caseCacheDeepShared: call stacks of EQUAL length that agree on their innermost
+// frames and differ in one link further out (at a random position, often the
+// outermost), on a counter deep enough to record all of them.
+func caseCacheDeepShared() {
+	out.Note("cache-deep-shared")
+	same := []byte{0, 8, 1, 9, 2, 10} // links of one frame each
+	l := 10 + rnd.Intn(36)
+	base := make([]byte, l)
+	for i := range base {
+		base[i] = Pick(rnd, same)
+	}
+	j := 0
+	if rnd.Chance(50) {
+		j = rnd.Intn(l)
+	}
+	progs := [][]byte{base}
+	for _, alt := range same {
+		if alt != base[j] && len(progs) < 4 {
+			v := append([]byte(nil), base...)
+			v[j] = alt
+			progs = append(progs, v)
+		}
+	}
+	runCacheMode(Pick(rnd, []string{"st", "deep"}), Pick(rnd, []int{33, 48, 64, 100, 256}), progs, 8, 0, rnd.Intn(2))
+}
+
+// caseCacheExpandedLong: long runs of frames of one package in a MAPPED file: the
+// encoded name is short, the expanded name is on either side of 4096 bytes.
+func caseCacheExpandedLong() {
+	out.Note("cache-expanded-long")
+	recBoost = 40 + rnd.Intn(61)
+	defer func() { recBoost = 0 }()
+	progs := [][]byte{{6}, {14}, {6, 14}}
+	runCacheMode("st", 256, progs[:1+rnd.Intn(3)], 3, 0, 2)
+}
+
 func caseCacheGeneric() {
 	out.Note("cache-generic-instantiations")
 	runCacheMode("st", 3, [][]byte{{3}, {20}}, 4, 0, 1)
@@ -431,6 +509,11 @@ func runCache(name string, depth int, progs [][]byte, nincs int, leafSel int) {
 
 func runCacheMode(name string, depth int, progs [][]byte, nincs int, leafSel int, mode int) {
 	state := "unmapped"
+	var mvf *counter.VerifFile
+	pending = []string{"StackCounter.Inc", HS(name), I(int64(depth)), I(int64(len(progs)))}
+	for _, p := range progs {
+		pending = append(pending, H(p))
+	}
 	switch mode {
 	case 0:
 		theStack = counter.NewStack(name, depth)
@@ -452,6 +535,7 @@ func runCacheMode(name string, depth int, progs [][]byte, nincs int, leafSel int
 		defer vf.Close()
 		if vf.CurrentName() != "" {
 			state = "mapped"
+			mvf = vf
 		}
 		theStack = vf.NewStack(name, depth)
 		out.Note("cache-" + state + "-file")
@@ -598,6 +682,30 @@ func runCacheMode(name string, depth int, progs [][]byte, nincs int, leafSel int
 	for _, k := range keys {
 		fields = append(fields, HS(k), U(rs[k]))
 	}
+	// the file decoder on the mapped file: the stack counters under their expanded names,
+	// and an ordinary counter of the same file
+	if mvf != nil {
+		mvf.NewCounter("plain/ordinary").Inc()
+		st := "err"
+		var ents []string
+		if data, err := os.ReadFile(mvf.CurrentName()); err == nil {
+			if pf, err := counter.Parse(mvf.CurrentName(), data); err == nil {
+				st = "ok"
+				var ks []string
+				for k := range pf.Count {
+					ks = append(ks, k)
+				}
+				sort.Strings(ks)
+				for _, k := range ks {
+					ents = append(ents, HS(k), U(pf.Count[k]))
+				}
+			}
+		}
+		fields = append(fields, "parse-"+st, I(int64(len(ents)/2)))
+		fields = append(fields, ents...)
+	} else {
+		fields = append(fields, "parse-none", I(0))
+	}
 	fields = append(fields, bad+"-")
 	out.Note(fmt.Sprintf("cache-depth-%d", depth))
 	out.Case(true, fields...)
@@ -609,18 +717,24 @@ func main() {
 	rnd = NewRand(Seed())
 	out = NewOut(outPath)
 	for i := 0; i < n; i++ {
+		var f func()
 		switch {
 		case i == 9:
-			caseCacheGeneric()
+			f = caseCacheGeneric
 		case i%100 == 19:
-			caseCacheDepths()
+			f = caseCacheDepths
+		case i%100 == 29:
+			f = caseCacheDeepShared
+		case i%100 == 39:
+			f = caseCacheExpandedLong
 		case i%10 < 5:
-			caseEnc()
+			f = caseEnc
 		case i%10 < 8:
-			caseDec()
+			f = caseDec
 		default:
-			caseCache()
+			f = caseCache
 		}
+		guarded(f)
 	}
 	out.Close()
 }
